@@ -356,7 +356,9 @@ def patch():
                         if w is not None:
                             setattr(val, ca, staticmethod(w))
     # leaf modules referenced by attribute from inside real task functions (methods.concat, ...)
-    for lib in (methods, ddcore):
+    import dask.dataframe.groupby as ddgroupby
+
+    for lib in (methods, ddcore, ddgroupby):
         for attr, val in list(vars(lib).items()):
             if isinstance(val, types.FunctionType):
                 w = wrapper_for(val)
